@@ -347,6 +347,87 @@ fn check(case: &Case) -> Outcome {
     Outcome::pass_l((coalesced && delivered >= 2) || at_limit, labels)
 }
 
+// ---------------------------------------------------------------------------------------------
+// byte-level: mutated streams must decode identically however they are chunked
+
+#[derive(Clone, Debug, Serialize, Deserialize)]
+pub struct FuzzCase {
+    limit: u8,
+    rpcs: Vec<RpcSpec>,
+    muts: Vec<vcore::gen::Mutation>,
+    /// raw bytes appended after the (mutated) frames
+    tail: Vec<u8>,
+    read: Script,
+}
+
+fn fuzz_strategy() -> impl Strategy<Value = FuzzCase> {
+    (
+        prop_oneof![5 => Just(0u8), 4 => Just(1u8)],
+        proptest::collection::vec(spec(), 1..=4),
+        proptest::collection::vec(vcore::gen::mutation(), 0..=3),
+        prop_oneof![3 => Just(vec![]), 1 => proptest::collection::vec(any::<u8>(), 1..12)],
+        read_script(),
+    )
+        .prop_map(|(limit, rpcs, muts, tail, read)| FuzzCase { limit, rpcs, muts, tail, read })
+}
+
+/// (shapes yielded before the stream ended, ended with an error?)
+fn decode_all(cfg: &gs::Config, stream: &[u8], script: Script) -> (Vec<String>, bool) {
+    let (_a, b) = simio::pair(DirCfg { read: script, write: Script::whole(), capacity: None }, DirCfg::default());
+    b.push_raw(stream);
+    b.close_incoming();
+    let mut framed = verif_pure::framed_inbound(cfg, b);
+    let mut out = vec![];
+    loop {
+        match futures::executor::block_on(framed.next()) {
+            None => return (out, false),
+            Some(Err(_)) => return (out, true),
+            Some(Ok(ev)) => match verif_pure::summarize(&ev) {
+                Some(sum) => out.push(format!("{:?}|invalid={}", shape_of_summary(&sum), sum.invalid.len())),
+                None => out.push("non-message-event".into()),
+            },
+        }
+        if out.len() > 64 {
+            return (out, false);
+        }
+    }
+}
+
+fn fuzz_check(case: &FuzzCase) -> Outcome {
+    let l = LIMITS[case.limit as usize % 2];
+    let cfg = match gs::ConfigBuilder::default().validation_mode(ValidationMode::Anonymous).max_transmit_size(l).max_publish_messages(3).max_control_message_size(300).build() {
+        Ok(c) => c,
+        Err(e) => return Outcome::fail("C31:config-rejected", e.to_string()),
+    };
+    let mut stream = vec![];
+    for (i, s) in case.rpcs.iter().enumerate() {
+        stream.extend(wire::frame(&build(s, i, l, 3, 300)));
+    }
+    let mut stream = vcore::gen::apply_mutations(&stream, &case.muts);
+    stream.extend_from_slice(&case.tail);
+    // baseline: one byte per read, so the decoder never sees more than the frame it is working on
+    let (base, base_err) = decode_all(&cfg, &stream, Script::bytewise());
+    let (got, got_err) = decode_all(&cfg, &stream, case.read.clone());
+    if base != got || base_err != got_err {
+        return Outcome::fail(
+            "C31:decoding-depends-on-chunking",
+            json!({"limit": l, "stream_len": stream.len(), "bytewise": {"yielded": base.len(), "ended_with_error": base_err}, "scripted": {"yielded": got.len(), "ended_with_error": got_err},
+                   "first_difference": base.iter().zip(got.iter()).position(|(a, b)| a != b)}),
+        );
+    }
+    let mut labels = vec![];
+    if !case.muts.is_empty() || !case.tail.is_empty() {
+        labels.push("mutated");
+    }
+    if base_err {
+        labels.push("ends-with-error");
+    }
+    if base.len() >= 2 {
+        labels.push("yielded>=2");
+    }
+    Outcome::pass_l(!base.is_empty() && (base_err || base.len() >= 2), labels)
+}
+
 pub fn run(ctx: &mut Ctx) {
     ctx.assume("the reader is the Framed<_, GossipsubCodec> returned by the real InboundUpgrade of the Config (hook verif_pure::framed_inbound); asynchronous_codec reads at most 8 KiB per poll");
     ctx.assume("'within the publish/control limits' is taken conservatively: publish count <= max_publish_messages and subscription+control bytes including tags/length prefixes <= max_control_message_size; RPCs only over those limits are don't-care");
@@ -356,5 +437,12 @@ pub fn run(ctx: &mut Ctx) {
         ctx.n(30_000, 750_000),
         &|| strategy().boxed(),
         &check,
+    );
+    ctx.check::<FuzzCase>(
+        "chunking-independence",
+        "a stream of 1..4 RPC frames (sizes around L in {100,1000}) with 0..3 byte mutations (flip/truncate/dup/remove/insert/set) and an optional garbage tail is decoded twice through the real Framed reader: one byte per read (never more than one frame buffered) and with a generated chunk script; the yielded RPC sequence and whether the stream ended in an error must be identical, and nothing may panic; non-trivial = >=1 RPC yielded and (>=2 yielded or the stream ended with an error)",
+        ctx.n(20_000, 500_000),
+        &|| fuzz_strategy().boxed(),
+        &fuzz_check,
     );
 }
